@@ -9,7 +9,9 @@
        every branch combines the operands the same way (sibling-branch consistency); the
        conversion is dominated by the false edges of is_no_unit() tests of both operands
        (a unitless operand is never scaled);
- (iii) `*` and `/` on UnitSet only add / subtract exponents.
+ (iii) `*` and `/` on UnitSet only add / subtract exponents;
+ (iv)  the incompatible-units error of an unevaluated `+` / `-` is decided by a plain inequality of
+       the two CSS dimension sets.
 """
 import math
 import re
@@ -179,6 +181,7 @@ def run(ctx, F):
         ctx.ok("F4-conversion-routing", "Numeric::as_unitset -> UnitSet::scale_to", None)
     else:
         ctx.fail("F4-conversion-routing", "Numeric::as_unitset -> UnitSet::scale_to", f"as_unitset calls {calls}", where=au.where())
+    incompat_guard(ctx, prog, S)
     # ---------------------------------------------------------------- (iii) exponent arithmetic of * and /
     for tr, op, neg in (("Mul", "add_assign", False), ("Div", "sub_assign", True)):
         cands = [b for b in prog.bodies.values() if b.raw.get("trait") == f"std::ops::{tr}" and "unitset::UnitSet" in (b.raw.get("self_ty") or "")]
@@ -224,6 +227,56 @@ def unitless_guard(ctx, body, S, key, conv_blocks):
         else:
             ctx.fail("F3-unitless-first", k, f"the unit conversion (as_unitset) can run before both operands were tested with is_no_unit() (tested on the way: {sorted(guarding) or 'none'}): "
                      "a unitless operand would be scaled by a unit ratio instead of taking the other operand's unit", where=body.where(cb))
+
+
+def incompat_guard(ctx, prog, S):
+    """(iv) "any other pair of different known units is an error": the `incompatible units` error of an
+    unevaluated + / - (css BinOp::valid_css) is raised exactly when the two CSS dimension sets differ — its last
+    deciding test is a plain `!=` / `==` of the two cmp_dim() results (directly, or in a helper that is
+    nothing but that comparison).  A laxer predicate (an `is_empty() ||` leniency, a superset test) lets
+    some pair of different units through without the error."""
+    b = prog.one("<css::binop::BinOp>::valid_css")
+    dom = b.dominators()
+    sites = sorted({bi for bi, si, st in b.stmts() if st["k"] == "assign" and st["rv"]["k"] == "agg" and st["rv"].get("variant") == "Incompat"})
+    ctx.floor("incompatible-units error sites in css BinOp::valid_css", len(sites), 1)
+    for n, site in enumerate(sites):
+        key = f"BinOp::valid_css|Incompat{'' if n == 0 else '#' + str(n)}"
+        # the innermost dominating boolean switch
+        cands = []
+        for d in dom.get(site, ()):
+            t = b.blocks[d]["term"]
+            if t["k"] == "switch" and t.get("discr_ty") == "bool":
+                cands.append(d)
+        if not cands:
+            ctx.fail("F5-incompat-error-guard", key, "the incompatible-units error is not decided by a boolean test", where=b.where(site))
+            continue
+        inner = max(cands, key=lambda d: len(dom.get(d, ())))
+        cond = sym.strip_transparent(S.operand(b, b.blocks[inner]["term"]["discr"]))
+        ok, what = _is_dim_inequality(prog, S, cond, 0)
+        if ok:
+            ctx.ok("F5-incompat-error-guard", key, what)
+        else:
+            ctx.fail("F5-incompat-error-guard", key, f"the incompatible-units error of an unevaluated + / - is decided by `{sym.show(cond)[:160]}`, not by a plain inequality of the two CSS dimension sets ({what}): "
+                     "some pair of different known units is accepted without the error", where=b.where(inner))
+
+
+def _is_dim_inequality(prog, S, cond, depth):
+    if cond[0] == "call" and re.search(r"PartialEq(<.*>)?>?::(ne|eq)$", cond[1]) and len(cond[2]) == 2:
+        a, c = (repr(x) for x in cond[2])
+        if "cmp_dim" in a and "cmp_dim" in c and a != c or depth > 0:
+            return True, "`!=` / `==` of the two dimension sets"
+        return False, "the compared operands are not the two cmp_dim() results"
+    if cond[0] == "unop" and cond[1] == "Not":
+        return _is_dim_inequality(prog, S, sym.strip_transparent(cond[2]), depth)
+    if cond[0] == "call" and cond[1] in prog.bodies and depth < 1 and len(cond[2]) == 2:
+        hb = prog.bodies[cond[1]]
+        from lib.sym import straight_line
+        if not straight_line(hb):
+            return False, f"the helper {mir.short(cond[1])} branches: it is more than the comparison"
+        ret = sym.strip_transparent(S.local(hb, 0))
+        ok, what = _is_dim_inequality(prog, S, ret, depth + 1)
+        return ok, what + f" (through {mir.short(cond[1])})"
+    return False, "unrecognised predicate"
 
 
 def operator_regions(body):
